@@ -131,6 +131,13 @@ Theorem C31_list_files_each_once ign acc path t :
 Proof. exact (list_files_perm_walk ign acc path t). Qed.
 Print Assumptions C31_list_files_each_once.
 
+(* ... exactly once, when entry names contain no separator and are distinct
+   within a directory (as on a real file system) ... *)
+Theorem C31_list_files_no_duplicates ign acc path t :
+  uniq_tree t -> NoDup (list_files ign acc path t).
+Proof. exact (list_files_nodup ign acc path t). Qed.
+Print Assumptions C31_list_files_no_duplicates.
+
 (* ... and the same list whatever order readdir returns the entries in, at
    every level (C29's file_order_independent). *)
 Theorem C31_file_order_independent ign acc path t1 t2 :
@@ -176,3 +183,6 @@ Example C31_premises_ok :
   pathmatch_model [115;114;99;47]%N [115;114;99]%N []%N false = Some false /\                     (* "src/" vs file "src" *)
   perm_tree (Dir [100] [File [97]; File [98]]) (Dir [100] [File [98]; File [97]]).
 Proof. vm_compute. repeat split; try reflexivity. apply pt_dir. apply pl_swap. Qed.
+
+Example C31_uniq_tree_ok : uniq_tree (Dir [100] [File [97]; Dir [98] [File [97]]]).
+Proof. cbn. repeat split; repeat constructor; try discriminate; cbn; intuition discriminate. Qed.
